@@ -3,7 +3,8 @@ check("C15", "exploration",
       "second-generation front end (lex, parse, errors, build_header, all XML dumps) in an isolated worker process. The "
       "TLA+ specification DeltaBuffers.tla contributes the input space (TLC enumerates every derivation of a grammar "
       "annotated with tokens consumed / nodes pushed up to a token bound, with junk tokens, truncation and invalid lexemes, "
-      "and every token sequence up to length 2 (3) in 8 contexts), the verdict oracle (well-formed => accepted, invalid "
+      "every token sequence up to length 2 (3) in 8 contexts, and 516 integer literals at the 128-bit boundary in every spelling whose validity the reference "
+      "automaton of PenneLex.tla decides, MC_LexNumbers.tla), the verdict oracle (well-formed => accepted, invalid "
       "lexeme => rejected, exhausted token buffer => E103, never a crash) and the buffer protocol that TLC validates on the "
       "recorded hook events of every random run (SetLen argument = initialised slots <= capacity, cursor inside the token "
       "array). TLC also model-checks the capacity question itself: 5 + 2*tokens is violated at 9-11 tokens, 5 + 4*tokens "
